@@ -5,6 +5,7 @@ mod fw;
 mod gproc;
 mod hval;
 mod mockfs;
+mod pack;
 mod props;
 mod qrun;
 mod sim;
@@ -16,6 +17,57 @@ use fw::*;
 fn usage() -> ! {
     eprintln!("usage: qv check <Cxx> [--tier quick|thorough] | qv replay <file> | qv explore <name> [args]");
     std::process::exit(2)
+}
+
+/// Run the check in a child process. If the checked code kills that process (stack overflow,
+/// abort — nothing a panic handler can catch), find the case among the shards' breadcrumbs by
+/// replaying each in its own process, and report it as a violation.
+fn supervise(ctx: &Ctx, check_args: &[String]) -> i32 {
+    let exe = std::env::current_exe().expect("current_exe");
+    let base = if std::path::Path::new("/dev/shm").is_dir() { "/dev/shm".to_string() } else { format!("{VERIF_ROOT}/harness/target") };
+    let dir = format!("{base}/qv-crumbs-{}", std::process::id());
+    let _ = std::fs::remove_dir_all(&dir);
+    std::fs::create_dir_all(&dir).expect("crumb dir");
+    let status = std::process::Command::new(&exe).arg("check").args(check_args).env("QV_INNER", "1").env("QV_CRUMBS", &dir).status().expect("spawn check");
+    let code = match status.code() {
+        Some(c @ 0..=2) => c,
+        other => {
+            println!("NOTE: the check process died ({status}, code {other:?}); looking for the case among the breadcrumbs");
+            let mut culprits = Vec::new();
+            let mut files: Vec<_> = std::fs::read_dir(&dir).map(|d| d.filter_map(|e| e.ok().map(|e| e.path())).collect()).unwrap_or_default();
+            files.sort();
+            for f in &files {
+                let out = std::process::Command::new(&exe).arg("replay").arg(f).output();
+                if let Ok(o) = out
+                    && !matches!(o.status.code(), Some(0..=2))
+                {
+                    let tail = String::from_utf8_lossy(&o.stderr).lines().rev().take(3).collect::<Vec<_>>().join(" | ");
+                    culprits.push((f.clone(), format!("{} ({tail})", o.status)));
+                }
+            }
+            if culprits.is_empty() {
+                println!("INCONCLUSIVE: no breadcrumb reproduces the death of the check process");
+                2
+            } else {
+                let rdir = format!("{VERIF_ROOT}/replays/{}", ctx.id);
+                let _ = std::fs::create_dir_all(&rdir);
+                for (f, how) in &culprits {
+                    let text = std::fs::read_to_string(f).unwrap_or_default();
+                    let mut j: serde_json::Value = serde_json::from_str(&text).unwrap_or(serde_json::json!({}));
+                    j["signature"] = serde_json::json!("process-killed");
+                    j["summary"] = serde_json::json!(format!("the checked code killed the process on this case: {how}"));
+                    let path = format!("{rdir}/{:016x}.json", hash64(&text));
+                    let _ = std::fs::write(&path, serde_json::to_string_pretty(&j).unwrap());
+                    println!("VIOLATION property={} replay={path}", ctx.id);
+                    println!("  signature: process-killed");
+                    println!("  the checked code killed the process on this case: {how}");
+                }
+                1
+            }
+        }
+    };
+    let _ = std::fs::remove_dir_all(&dir);
+    code
 }
 
 fn main() {
@@ -49,8 +101,11 @@ fn main() {
                 std::process::exit(2);
             };
             let ctx = Ctx { id: p.id, tier, seed, shards, strict: std::env::var("QV_STRICT").is_ok() };
-            let code = (p.run)(&ctx);
-            std::process::exit(code);
+            if std::env::var("QV_INNER").is_ok() || std::env::var("QV_NO_SUPERVISOR").is_ok() {
+                let code = (p.run)(&ctx);
+                std::process::exit(code);
+            }
+            std::process::exit(supervise(&ctx, &args[2..]));
         }
         "replay" => {
             if args.len() < 3 {
@@ -69,7 +124,15 @@ fn main() {
                 eprintln!("unknown property {id}");
                 std::process::exit(2);
             };
-            match (p.replay)(&j["replay"]) {
+            // same stack size as the shards of a check
+            let payload = j["replay"].clone();
+            let replay = p.replay;
+            let outcome = std::thread::Builder::new().stack_size(256 * 1024 * 1024).spawn(move || replay(&payload)).expect("spawn").join();
+            let outcome = match outcome {
+                Ok(r) => r,
+                Err(p) => Err(format!("replay panicked: {}", panic_message(&p))),
+            };
+            match outcome {
                 Ok(()) => {
                     println!("replay passed: property={id}");
                     std::process::exit(0)
